@@ -367,6 +367,31 @@ class _Unbound(object):
     def __repr__(self):
         return '_UNB'
 
+    # the value of a never-bound variable must flow through any expression of a generated program (lenient semantics)
+    def _same(self, *a):
+        return self
+    __add__ = __radd__ = __sub__ = __rsub__ = __mul__ = __rmul__ = __getitem__ = __or__ = __ror__ = __and__ = __rand__ = _same
+    __neg__ = __pos__ = __invert__ = __mod__ = __rmod__ = __truediv__ = __floordiv__ = __matmul__ = __rmatmul__ = _same
+
+    def __lt__(self, o):
+        return False
+    __gt__ = __le__ = __ge__ = __lt__
+
+    def __len__(self):
+        return 0
+
+    def __format__(self, spec):
+        return '_UNB'
+
+    def __hash__(self):
+        return 0
+
+    def __index__(self):
+        return 0
+
+    def keys(self):
+        return []
+
 
 _UNB = _Unbound()
 
@@ -472,11 +497,14 @@ def execute(code, ch, modules=None):
         pass
     except RecursionError:
         obs.append(('recursion', 0, False))
+    except Exception:
+        # two features next to each other may not fit at run time (list + int ...): that execution just ends there
+        obs.append(('error', 0, False))
     return obs
 
 
 class Truth(object):
-    __slots__ = ('reach', 'unbound', 'reached', 'nexec', 'nodes')
+    __slots__ = ('reach', 'unbound', 'reached', 'nexec', 'nodes', 'errors')
 
 
 def ground_truth(text, mode, modules=None, max_exec=20000):
@@ -492,10 +520,14 @@ def ground_truth(text, mode, modules=None, max_exec=20000):
     t.unbound = collections.defaultdict(bool)
     t.reached = collections.defaultdict(bool)
     t.nodes = 0
+    t.errors = 0
 
     def on_exec(x):
         t.nodes += len(x.trace)
         for o in x.obs:
+            if o[0] == 'error':
+                t.errors += 1
+                continue
             if o[0] == 'recursion':
                 continue
             r, site, unwinding = o
